@@ -182,6 +182,13 @@ func values(seed uint64, n int, emptyEO bool) {
 	}
 	// arrays of minimal-size elements of every builtin type, (a) as the last thing in the buffer (a bare Variant),
 	// (b) followed by other fields (inside a DataValue with status and timestamps), (c) two of them in a ReadResponse
+	// rank 3 / rank 4 arrays with pairwise different elements and trailing dimensions > 1 (strides of split / flattening)
+	for i, m := range g.distinctArrays() {
+		emit(customs[0], reflect.ValueOf(m))
+		if i%3 == 0 {
+			emit(customs[1], reflect.ValueOf(&ua.DataValue{EncodingMask: 3, Value: m, Status: ua.StatusCode(7)}))
+		}
+	}
 	mins := g.minimalVariants()
 	var rr target
 	for _, t := range all {
@@ -247,6 +254,90 @@ func handcrafted() []hcase {
 		cat([]byte{0xc6}, le32(4), le32(1), le32(2), le32(3), le32(4), le32(3), le32(968973220), le32(49477), le32(384773)))
 	add(V, "dims 2^31-1 x 2^31-1 x 2^31-1 x 8 (no wrap to the length), two elements",
 		cat([]byte{0xc6}, le32(2), le32(1), le32(2), le32(4), le32(0x7fffffff), le32(0x7fffffff), le32(0x7fffffff), le32(8)))
+	// a length prefix far larger than what follows, at every place that goes through Buffer.ReadBytes / ReadString: the
+	// decoder must not allocate the announced length before it has compared it with the remaining bytes
+	for _, n := range []uint32{0x7ffffffe, 0xfffffffe, 0x40000000, 0x00ffffff} {
+		tag := fmt.Sprintf("announced length %#x, no data: ", n)
+		add(NI, tag+"NodeID ByteString", cat([]byte{5, 0, 0}, le32(n)))
+		add(NI, tag+"NodeID String", cat([]byte{3, 0, 0}, le32(n)))
+		add(V, tag+"Variant ByteString", cat([]byte{0x0f}, le32(n)))
+		add(V, tag+"Variant String", cat([]byte{0x0c}, le32(n)))
+		add(V, tag+"Variant XMLElement", cat([]byte{0x10}, le32(n)))
+		add(V, tag+"Variant NodeID ByteString", cat([]byte{0x11, 5, 0, 0}, le32(n)))
+		add(V, tag+"Variant array of ByteString, second element", cat([]byte{0x8f}, le32(2), le32(1), []byte{7}, le32(n)))
+		add("(TCustom CExpNodeID)", tag+"ExpandedNodeID namespace uri", cat([]byte{0x80, 0}, le32(n)))
+		add("(TCustom CExpNodeID)", tag+"ExpandedNodeID ByteString id", cat([]byte{0x45, 0, 0}, le32(n)))
+		add("(TCustom CLocText)", tag+"LocalizedText text", cat([]byte{2}, le32(n)))
+		add(DI, tag+"DiagnosticInfo additional info", cat([]byte{0x10}, le32(n)))
+		add(EO, tag+"ExtensionObject type id ByteString", cat([]byte{5, 0, 0}, le32(n)))
+		add(RR, tag+"ReadRequest authentication token", cat([]byte{5, 0, 0}, le32(n)))
+	}
+	// every encoding mask of DataValue / DiagnosticInfo / LocalizedText, canonical or not, with exactly the fields the
+	// DECODER reads for it (built by hand, not by Encode), alone and inside a ReadResponse followed by more fields
+	dv := func(m byte) []byte {
+		b := []byte{m}
+		if m&1 != 0 {
+			b = append(b, 0x06, 0x2a, 0, 0, 0) // Variant Int32 42
+		}
+		if m&2 != 0 {
+			b = append(b, le32(0x80350000)...)
+		}
+		if m&4 != 0 {
+			b = append(b, 0x00, 0x40, 0x6f, 0x2b, 0x5a, 0x4d, 0xda, 0x01)
+		}
+		if m&0x10 != 0 {
+			b = append(b, 0x39, 0x30)
+		}
+		if m&8 != 0 {
+			b = append(b, 0x00, 0x80, 0x07, 0x8c, 0x5a, 0x4d, 0xda, 0x01)
+		}
+		if m&0x20 != 0 {
+			b = append(b, 0x31, 0xd4)
+		}
+		return b
+	}
+	di := func(m byte) []byte {
+		b := []byte{m}
+		for _, bit := range []byte{1, 2, 8, 4} {
+			if m&bit != 0 {
+				b = append(b, le32(uint32(bit)*257)...)
+			}
+		}
+		if m&0x10 != 0 {
+			b = append(b, cat(le32(2), []byte{0x68, 0x69})...)
+		}
+		if m&0x20 != 0 {
+			b = append(b, le32(0x80010000)...)
+		}
+		if m&0x40 != 0 {
+			b = append(b, 0x01, 5, 0, 0, 0) // inner: symbolic id 5
+		}
+		return b
+	}
+	lt := func(m byte) []byte {
+		b := []byte{m}
+		if m&1 != 0 {
+			b = append(b, cat(le32(2), []byte{0x65, 0x6e})...)
+		}
+		if m&2 != 0 {
+			b = append(b, cat(le32(3), []byte{0x61, 0x62, 0x63})...)
+		}
+		return b
+	}
+	rhdr := cat(rep([]byte{0}, 8), le32(1), le32(0), []byte{0}, le32(0xffffffff), []byte{0, 0, 0})
+	for m := 0; m < 256; m++ {
+		add(DV, fmt.Sprintf("DataValue mask %#02x", m), dv(byte(m)))
+		add(DI, fmt.Sprintf("DiagnosticInfo mask %#02x", m), di(byte(m)))
+		if m < 4 || m%5 == 0 {
+			add("(TCustom CLocText)", fmt.Sprintf("LocalizedText mask %#02x", m), lt(byte(m)))
+		}
+		if m%4 == 2 || m == 0x10 || m == 0x20 || m == 0x30 || m == 0x12 {
+			add("ty_ReadResponse", fmt.Sprintf("ReadResponse with DataValue mask %#02x, DiagnosticInfo mask %#02x", m, (m*7)&0xff),
+				cat(rhdr, le32(2), dv(byte(m)), dv(byte(m^0x30)), le32(1), di(byte(m*7))))
+			add(V, fmt.Sprintf("Variant array of DataValue mask %#02x followed by dimensions", m),
+				cat([]byte{0xd7}, le32(2), dv(byte(m)), dv(byte(m)), le32(1), le32(2)))
+		}
+	}
 	add(V, "row5 mask 0x46", []byte{0x46, 7, 0, 0, 0})
 	add(V, "mask 0x46 with trailing bytes", []byte{0x46, 7, 0, 0, 0, 1, 2, 3, 4, 5})
 	add(V, "dimension count 2^31-1", cat([]byte{0xc1}, le32(0), le32(0x7fffffff)))
